@@ -39,7 +39,7 @@ std::string harness_run()
   sim::clock_set_read_cost(0);
   if(rc.w.layers > 1) sim::probe("multi_layer_world");
   return "{\"sync0_dofs\":" + std::to_string(CNT.sync0_dofs) + ",\"shared_dofs\":" + std::to_string(CNT.shared_dofs) + ",\"matvec_entries\":" + std::to_string(CNT.matvec_entries) +
-    ",\"solution_entries\":" + std::to_string(CNT.sol_entries) + ",\"solver_iterations\":" + std::to_string(CNT.iters) + ",\"levels\":" + std::to_string(CNT.levels) + "}";
+    ",\"solution_entries\":" + std::to_string(CNT.sol_entries) + ",\"solver_iterations\":" + std::to_string(CNT.iters) + ",\"levels\":" + std::to_string(CNT.levels) + ",\"transfer_entries\":" + std::to_string(CNT.transfer_entries) + "}";
 }
 
 int main(int argc, char** argv) { return harness_main(argc, argv); }
